@@ -406,7 +406,7 @@ theorem att_prune_sim {p : AttPool} {log : AttSpec} (h : AttInv p log) (e : Nat)
     | some v' =>
       simp only [hg, Option.filter_some] at hk
       split at hk
-      · cases hk; exact h.datasKey k v' hg
+      · rw [← Option.some.inj hk]; exact h.datasKey k v' hg
       · cases hk
   · intro k hk
     have := (GoMap.mem_keys_eraseIf_key (fun k : AttData => decide (k.target < e - 1)) k).mp hk
